@@ -15,21 +15,23 @@ Theorem manifest_fits :
     length (encode l) <= max_bytes_out.
 Proof. exact manifest_fits_lemma. Qed.
 
-(** FULL STATEMENT (manifest_roundtrip): count l <= MAX_FDS_OUT ->
-    transfer l = ROk (pair_up l (seq 0 (count l))) — every address paired with
-    its own descriptor, family order preserved.  Proved here per layer: the
-    length prefix round-trips for every manifest size below 16384, and the
-    entries of one family decode back in order, appended to what was decoded
-    before, leaving the rest of the message untouched.  The composition of the
-    four families inside [receive] is not mechanised (it is what the
-    correspondence run exercises): *_partial. *)
-Theorem manifest_roundtrip_partial :
-  (forall n r, n < 128 * 128 -> varint_decode 10 (varint n ++ r) = Some (n, r)) /\
-  (forall tag, 1 <= tag <= 4 -> forall ss fuel rest acc,
-     Forall (fun s => length s < 128) ss -> length ss <= fuel ->
-     decode_fields (fuel + length rest) (concat (map (field tag) ss) ++ rest) acc =
-     decode_fields (fuel - length ss + length rest) rest (fold_left (fun a s => push tag s a) ss acc)).
-Proof. split; [exact varint_decode_two|exact decode_fields_app]. Qed.
+(** manifest_roundtrip: for ANY listener set up to MAX_FDS_OUT (any family mix,
+    address texts up to 62 bytes), sending it and receiving it yields exactly
+    the sent listeners: every address paired with its own descriptor, family
+    order preserved, nothing dropped, nothing invented *)
+Theorem manifest_roundtrip :
+  forall l, count l <= max_fds_out -> all_addr (fun s => length s <= 62) l ->
+    transfer l = ROk (pair_up l (seq 0 (count l))).
+Proof. exact manifest_roundtrip_lemma. Qed.
+
+(** the pairing is the identity on descriptors: the i-th sent address comes back with descriptor i *)
+Theorem pair_up_is_sent_order :
+  forall (l : listeners (list N)),
+    map snd (http (pair_up l (seq 0 (count l))) ++ tls (pair_up l (seq 0 (count l))) ++
+             tcp (pair_up l (seq 0 (count l))) ++ udp (pair_up l (seq 0 (count l)))) = seq 0 (count l) /\
+    map fst (http (pair_up l (seq 0 (count l))) ++ tls (pair_up l (seq 0 (count l))) ++
+             tcp (pair_up l (seq 0 (count l))) ++ udp (pair_up l (seq 0 (count l)))) = http l ++ tls l ++ tcp l ++ udp l.
+Proof. exact pair_up_order. Qed.
 
 (** no_fd_lost: once the old worker has returned its listen sockets (it keeps
     its own copies: SCM_RIGHTS duplicates, return_listen_sockets takes and does
